@@ -8,7 +8,7 @@ import random
 import shutil
 
 from .onion import OnionWorld
-from .tlc import run_tlc, scratch_dir
+from .tlc import MachineryError, run_tlc, scratch_dir
 
 TOPOLOGIES = {
     "line4": dict(names=("o", "r1", "r2", "x"), exits=("x",), origins=("o",)),
@@ -35,7 +35,7 @@ CONSTANTS
  AdvKinds = {}
  NodeRank <- RankT
  AdvSrcs = {"adv"}
- TrackWire = TRUE
+ TrackWire = %(track_wire)s
  UseIds = TRUE
  NodeTeardown = TRUE
  MayVanish = TRUE
@@ -44,9 +44,7 @@ CONSTANTS
  Aead = TRUE
  CheckIdent = TRUE
  AutoTimers = FALSE
-INVARIANT TraceAccepted
-INVARIANT DebugStop
-INVARIANT ExitIntegrity
+%(locate)sINVARIANT ExitIntegrity
 INVARIANT ReturnIntegrity
 INVARIANT LayerDepth
 INVARIANT E2ELayers
@@ -219,21 +217,37 @@ def random_run(topology, seed, profile, steps, settings=None, max_circuits=3, go
         w.close()
 
 
-def validate(traces, topology, hdr, *, max_joined=100, max_early=8, create_guard=True, timeout=1800):
-    """-> (ok, TlcResult, failing (trace index, event index) or None)"""
+def validate(traces, topology, hdr, *, max_joined=100, max_early=8, create_guard=True, timeout=1800, track_wire=True,
+             locate=None):
+    """-> (ok, TlcResult, failing (trace index, event index) or None).
+    Fast path: without the ENABLED-based acceptance invariant TLC simply walks every trace as far as it is a behaviour
+    of the spec; all traces were accepted iff it found exactly one state per event (+ the initial ones). Only when
+    that count is short (or a property fails) a second run with TraceAccepted names the trace and the event."""
     t = TOPOLOGIES[topology]
+    expected = sum(len(tr["events"]) + 1 for tr in traces)
+    need_stop = any("nocheck" in e for tr in traces for e in tr["events"])
     tmp = scratch_dir("onion-")
     try:
         path = os.path.join(tmp, "traces.json")
         with open(path, "w", encoding="utf-8") as f:
             json.dump({"hdr": hdr, "traces": [{"events": tr["events"]} for tr in traces]}, f)
-        cfg = os.path.join(tmp, "OnionTrace.cfg")
-        with open(cfg, "w", encoding="utf-8") as f:
-            f.write(CFG_TEMPLATE % dict(nodes=", ".join('"%s"' % n for n in t["names"]),
-                                        origins=", ".join('"%s"' % n for n in t["origins"]),
-                                        max_joined=max_joined, max_early=max_early,
-                                        create_guard="TRUE" if create_guard else "FALSE"))
-        r = run_tlc("OnionTrace.tla", cfg, env={"TRACE_FILE": path}, coverage=False, timeout=timeout)
+
+        def run(with_locate):
+            cfg = os.path.join(tmp, "OnionTrace%d.cfg" % with_locate)
+            with open(cfg, "w", encoding="utf-8") as f:
+                f.write(CFG_TEMPLATE % dict(nodes=", ".join('"%s"' % n for n in t["names"]),
+                                            origins=", ".join('"%s"' % n for n in t["origins"]),
+                                            max_joined=max_joined, max_early=max_early,
+                                            create_guard="TRUE" if create_guard else "FALSE",
+                                            track_wire="TRUE" if track_wire else "FALSE",
+                                            locate="INVARIANT TraceAccepted\nINVARIANT DebugStop\n" if with_locate else ""))
+            return run_tlc("OnionTrace.tla", cfg, env={"TRACE_FILE": path}, coverage=False, timeout=timeout)
+        r = run(bool(locate) or need_stop)
+        if not (locate or need_stop) and r.ok and r.distinct < expected:
+            r = run(True)
+            if r.ok:
+                raise MachineryError("trace validation: %d states for %d expected, but the locating run accepts everything"
+                                     % (r.distinct, expected))
     finally:
         shutil.rmtree(tmp, ignore_errors=True)
     where = None
